@@ -186,7 +186,7 @@ def draw_cross_params(rng, spec: Spec, dx: dict, dy: dict, *, lazy: bool | None 
     p: dict[str, Any] = {}
     rx, ry = max(2, _rank(dx)), max(2, _rank(dy))
     S = gen.n_samples_total(dx)
-    use_pca = rng.choice([True, False, [True, False], True])
+    use_pca = rng.choice([True, False, [True, False], [False, True], True])
     p["use_pca"] = use_pca
     up = use_pca if isinstance(use_pca, list) else [use_pca, use_pca]
     npm = []
